@@ -60,6 +60,10 @@ CLAIMS = {
         "text": "Proved for all inputs on the Coq model of the report writer, whose layout tables (columns, header shapes, gaps, sheet-size formulas, repair flags) are regenerated from the source on every run: each transaction, yearly line, balance, holder total, fraction and Summary line of the window is written on exactly one row of its table, at table start + index in the time-sorted list; that row carries ComputedData's figures (running sums, sold %, amount, proceeds, cost, gain, LONG/SHORT) and the k/n labels of GainLossSet's numbering (whose functional specification is proved in C10); row ranges are disjoint; no write leaves a sheet while at most 21 holders have a balance (bound shown tight by a witness, finding F12); the Legend states the method(s) and the filters. That the .ods holds the modelled cells is not proved: it is checked cell by cell on every run (values, sheet names, order and sizes; generated multi-asset reports x 5 countries / 6 language packs), and an independent oracle reads the file against ComputedData and the input.",
         "note": "The theorems concern the model. Styles, static label texts (checked only to be non-empty) and template sizes are inputs. Sold % and running sums are ComputedData's. Labels get an independent count only for monotone local dates (F9). Known finding F12 (more than 21 holders with a balance overflow the Tax sheet). F10 and F2 are repaired in /repo; their replays run first on every run.",
         "technique": "Coq proof over an executable layout model with translated tables + cell-by-cell differential correspondence (fresh interpreter per report) + independent table-level oracle", "design_ref": "6 C13"},
+    "C15": {
+        "text": "Proved in Coq (unbounded, on the executable model Model/OpenPos.v, whose expressions, column tables and constants are re-translated from open_positions.py on every run): listed assets = assets with a lot whose cost x (1 - sold %) is > 0, which implies an unsold remainder; every holder, and every (exchange, holder), with final balance > 0 appears exactly once, with the summed or own final balance, and the balance cell finally holds it; exact identities in Q: realised + unrealised = acquired, weights sum to 1, rows sum to the asset cost, divisor = sum of counted balances; decimal accuracy bounds with E n = (1+5e-31)^n - 1 for sold %, lot unrealised cost, asset cost and per-row unit, cost and weight; grand total > 0 and per-unit divisor > 0; the report is produced when every listed asset has a positive balance (which follows from the C07 reconciliation, carried as a hypothesis); all writes land within sheet capacity. Corresponded, not proved: that the .ods on disk contains these cells; the real plugin runs in a fresh interpreter and is compared cell by cell (extra cells included) and judged by an independent exact-rational oracle. Refuted: 'every valid input yields the report', by the dust-transfer-fee KeyError witness (known finding).",
+        "note": "Hypotheses kept visible: op_wf (structural parts proved for compute outputs; 'lot not overspent' is C02); the C07 reconciliation where a positive balance is needed (fails under F8); size bounds (lot cost x E(K+3) < 4.9e-14, per-unit cost < 1e18); dates_monotone for to-date runs. Partial: the combined decimal inequality |sum of weights - 1| <= bound is not assembled; 'unsold remainder => listed' is false below 5e-14 (known finding cost-below-resolution); styles and the Legend sheet are not modelled. Oracle criterion: a cell's double must lie between the correctly rounded doubles of v +/- t with t = N x 1e-28 x (cost of the asset's lots), N = 4 x (lots + fractions) + 16.",
+        "technique": "Coq proof (fold invariants, layout invariants, Q-arithmetic error composition on DecProofs) over a translated model + cell-by-cell differential correspondence + exact-rational oracle", "design_ref": "6 C15"},
     "C16": {
         "text": "PARTIAL. Proved over a control-flow model of rp2_main._rp2_main_internal and tables regenerated from the working tree on every run (country tables, template/catalogue/plugin inventory, repair flags): templates exist for every (country, generator of that country, language the country ships); generator discovery finds exactly the configured generators; a supported, valid run exits 0 having written exactly prefix+method|mixed+_+report for every configured generator, under the hypotheses not (jp with -f and -t) and at most 21 holders per asset (refutation witnesses for both, and for jp's default language). Only corresponded: that the real generators fail exactly under the modelled conditions, and everything below RP2's control flow: real subprocess runs of the five entry points over methods x shipped languages x {none, from, to, both} including mid-year and no-taxable-event windows x 6 input shapes, [accounting_methods] schedules, 21/22 holders, -n, and rejected combinations. Oracle: exit 0 and every configured report present and readable. Correspondence: exit status and file list equal MainRun.run.",
         "note": "Findings F6 (jp default language ja has no templates), F7 (jp rejects -f together with -t after two reports were written), F12 (more than 21 holders) are in KNOWN_FINDINGS.txt with their refutation theorems; F2, F4, F10 are repaired in /repo (replays in corpus/C16 run first; the property file does not compile on a tree without those repairs). Report generators enter the model as 'succeeds unless a known condition holds' (their internals are C13/C14/C15/C20). The input facts the model receives (taxable types in the window, hidden summary year, holders, negative balance) are computed by the harness.",
